@@ -27,6 +27,13 @@ from .values import (
 )
 from .errors import JSError, MemoryLimitError, TimeLimitError
 
+# JSON.stringify escapes only what JSON requires (quote, backslash, C0 controls)
+# and lone surrogates; every other character is emitted as is
+_JSON_ESCAPES = {c: "\\u%04x" % c for c in (*range(0x20), *range(0xD800, 0xE000))}
+_JSON_ESCAPES.update(
+    {8: "\\b", 9: "\\t", 10: "\\n", 12: "\\f", 13: "\\r", 34: '\\"', 92: "\\\\"}
+)
+
 
 class Context:
     """JavaScript execution context with configurable limits."""
@@ -786,6 +793,11 @@ class Context:
         def stringify_fn(*args):
             value = args[0] if args else UNDEFINED
 
+            def quote(text):
+                # QuoteJSONString: unlike the host encoder it leaves non-ASCII
+                # characters alone
+                return '"' + text.translate(_JSON_ESCAPES) + '"'
+
             # JSON text of a JS value; None where there is none (undefined)
             def serialize(v):
                 if v is UNDEFINED:
@@ -799,7 +811,7 @@ class Context:
                     # infinities have no JSON form and print as null
                     return to_string(v) if math.isfinite(v) else "null"
                 if isinstance(v, str):
-                    return json.dumps(v)
+                    return quote(v)
                 if isinstance(v, JSArray):
                     # For arrays, undefined becomes null
                     return "[" + ",".join(serialize(e) or "null" for e in v._elements) + "]"
@@ -809,7 +821,7 @@ class Context:
                     for k, val in v._properties.items():
                         text = serialize(val)
                         if text is not None:
-                            members.append(json.dumps(k) + ":" + text)
+                            members.append(quote(k) + ":" + text)
                     return "{" + ",".join(members) + "}"
                 return "null"
 
